@@ -482,6 +482,9 @@ func (runInfo *runInfoStruct) makeCallArgs(rt reflect.Type, isRunVMFunction bool
 		if runInfo.err != nil {
 			return nil, false
 		}
+		if runInfo.rv.Kind() == reflect.Interface && !runInfo.rv.IsNil() {
+			runInfo.rv = runInfo.rv.Elem()
+		}
 		if runInfo.rv.Kind() != reflect.Slice && runInfo.rv.Kind() != reflect.Array {
 			runInfo.err = newStringError(callExpr, "call is variadic but last parameter is of type "+runInfo.rv.Type().String())
 			runInfo.rv = nilValue
@@ -494,11 +497,12 @@ func (runInfo *runInfoStruct) makeCallArgs(rt reflect.Type, isRunVMFunction bool
 		}
 
 		indexSlice := 0
+		sliceV := runInfo.rv
 		for indexInReal < numInReal {
 			if isRunVMFunction {
-				args = append(args, reflect.ValueOf(runInfo.rv.Index(indexSlice)))
+				args = append(args, reflect.ValueOf(sliceV.Index(indexSlice)))
 			} else {
-				runInfo.rv, runInfo.err = convertReflectValueToType(runInfo.rv.Index(indexSlice), rt.In(indexInReal))
+				runInfo.rv, runInfo.err = convertReflectValueToType(sliceV.Index(indexSlice), rt.In(indexInReal))
 				if runInfo.err != nil {
 					runInfo.err = newStringError(callExpr.SubExprs[indexExpr],
 						"function wants argument type "+rt.In(indexInReal).String()+" but received type "+runInfo.rv.Type().String())
